@@ -173,7 +173,10 @@ def check_case(case, ctx):
             return
         g = c.guardrails
         if g is None:
-            ctx.violation("recover.exact", "configuration returned without guardrails metadata (found by another route?)", case)
+            key = None
+            if par["keykind"] in ("lead7", "constant", "headerlike") and not key_is_top_ngram(ginfo["padded"], par["envkey"]):
+                key = "guardrails-key-frequency-heuristic"  # the Guardrails route cannot find the key, the look-alike block is what is left
+            ctx.violation("recover.exact", "configuration returned without guardrails metadata (found by another route?)", case, key=key)
             return
         want_tuple = [(i, t, len(v), v) for i, t, v in settings]
         got_tuple = [(s.index.value, s.type.value, s.length, bytes(s.value)) for s in c.settings_tuple]
@@ -182,6 +185,13 @@ def check_case(case, ctx):
             problems.append("decoded settings differ from the protected configuration")
         if bytes(c.config_block) != cfg.ljust(6144, b"\0"):
             problems.append("config_block is not the padded original")
+        if not stream_equiv(g.payload_xor_key, par["envkey"]) and g.payload_xor_key and \
+                P.payload_checksum(P.rxk(P.rxk(ginfo["padded"], par["envkey"]), g.payload_xor_key)) + 1 == ginfo["stored"]:
+            # known finding: another (shorter) key unmasks the area to different bytes with the same checksum
+            ctx.violation("recover.exact", f"reported key {core.short(g.payload_xor_key, 24)} is not the environmental key {core.short(par['envkey'], 24)}, "
+                          f"but the configuration it unmasks has the stored checksum (collision of the Cobalt Strike checksum)", case,
+                          key="guardrails-checksum-collision")
+            return
         if not stream_equiv(g.payload_xor_key, par["envkey"]):
             problems.append(f"payload_xor_key {core.short(g.payload_xor_key, 40)} is not equivalent to the environmental key {core.short(par['envkey'], 40)}")
         if (g.beacon_config_offset, g.guard_config_offset) != (base, base + 6144):
@@ -228,7 +238,23 @@ def check_case(case, ctx):
 
 
 def gen_key(rng, length):
-    kind = rng.choice(["ascii", "random", "random", "periodic", "lead7", "constant"])
+    kind = rng.choice(["ascii", "random", "random", "periodic", "lead7", "constant", "headerlike", "nearperiodic"])
+    if kind == "headerlike" and length >= 8:
+        # the key contains (configuration header ^ 0x2e ^ k) for a default single-byte key k: wherever the configuration is
+        # NUL (its padding), the masked area then reads like the start of a configuration block under k
+        k1 = rng.choice([0x69, 0x2E, 0x00])
+        pat = bytes(h ^ 0x2E ^ k1 for h in b"\x00\x01\x00\x01\x00\x02\x00")
+        at = rng.randrange(0, length - 6)
+        kb = bytearray(rng.randrange(1, 256) for _ in range(length))
+        kb[at : at + 7] = pat
+        return bytes(kb[:length]), kind
+    if kind == "nearperiodic" and length >= 6:
+        # a short unit repeated, one byte changed: a shorter candidate key unmasks all but a few positions
+        u = rng.choice([2, 2, 3, 4])
+        unit = bytes(rng.randrange(1, 256) for _ in range(u))
+        kb = bytearray((unit * (length // u + 1))[:length])
+        kb[rng.randrange(u, length)] ^= rng.choice([1, 2, 4, 0x20, 0xFF])
+        return bytes(kb), kind
     if kind == "lead7":
         # seven or more equal leading bytes, among them 0x2e ^ (0x69 | 0x2e | 0x00): the masked area then starts like a
         # configuration under one of the default single-byte keys
@@ -259,9 +285,10 @@ def gen_par(rng, keylen, neg=None):
 
     optvals = {"5": hv(), "6": hv(), "7": hv(), "8": rng.choice([rng.randbytes(4), b"\x0a\x00\x00\x05", b"\xc0\xa8\x01\x00", rng.randbytes(2) + b"\x00\x00"])}
     envkey, kind = gen_key(rng, keylen)
-    while neg == "guard-truncated" and kind in ("lead7", "constant"):
-        # without its guard configuration such a masked area IS a block that starts with the configuration header under a
-        # default single-byte key: the ordinary extraction (C01) rightly returns it, nothing of Guardrails is left to judge
+    while neg is not None and kind in ("lead7", "constant", "headerlike"):
+        # when the Guardrails route cannot unmask such an area (negative cases), bytes of it ARE a block that starts with the
+        # configuration header under a default single-byte key: the ordinary extraction (C01) returns that block, which is
+        # what it must do for a plain block followed by bytes that merely resemble a guard configuration
         envkey, kind = gen_key(rng, keylen)
     container = rng.choice(["raw", "raw", "pe"])
     par = {
@@ -270,6 +297,8 @@ def gen_par(rng, keylen, neg=None):
         "arch": rng.choice(["x86", "x64"]), "xorenc": rng.random() < 0.2, "stub": rng.choice([0, 57, 300]),
         "decoy": rng.choice([None, None, None, "marker", "copy"]) if neg is None else None,
     }
+    if par["decoy"] == "copy" and kind in ("lead7", "constant", "headerlike"):
+        par["decoy"] = "marker"  # a damaged copy of such an area is a negative case of its own, see above
     if neg is None and rng.random() < 0.2:
         par["bulk"] = {"padding": rng.choice([0, 2, keylen, 2 * keylen - 1, 2 * keylen + 1, 3 * keylen, 600, rng.randrange(0, 1200)]),
                        "byte": rng.choice([None, None, 0x41, 0x00, 0xFF])}
